@@ -1,6 +1,9 @@
 //! Logic related to the Responder, the components in charge of making sure breaches get properly punished.
 
 use std::collections::HashSet;
+#[cfg(feature = "verif-hooks")]
+use crate::verif_sync::{Arc, Mutex};
+#[cfg(not(feature = "verif-hooks"))]
 use std::sync::{Arc, Mutex};
 
 use bitcoin::hashes::Hash;
